@@ -173,7 +173,8 @@ fn value(letter: char, e: &RefEntry, root: &str) -> Val {
     match letter {
         'p' => Val::Exact(p.clone()),
         'f' => {
-            if e.depth == 0 && (root.ends_with('/') || root.ends_with("/.") || root == "." || root.ends_with("/..")) {
+            // a trailing slash: "the last component" with or without it (GNU keeps it)
+            if e.depth == 0 && root.ends_with('/') {
                 return Val::Open;
             }
             Val::Exact(match p.rfind('/') {
@@ -182,7 +183,7 @@ fn value(letter: char, e: &RefEntry, root: &str) -> Val {
             })
         }
         'h' => {
-            if e.depth == 0 && (root.ends_with('/') || root.ends_with("/.") || root == "." || root.ends_with("/..")) {
+            if e.depth == 0 && root.ends_with('/') {
                 return Val::Open;
             }
             match p.rfind('/') {
@@ -190,9 +191,9 @@ fn value(letter: char, e: &RefEntry, root: &str) -> Val {
                 Some(0) => Val::Open,
                 Some(i) => {
                     let pre = &p[..i];
-                    // "the part before it" is only unambiguous when the separator is a single '/'
-                    // and the part is not itself spelled with a trailing '.' component
-                    if pre.ends_with('/') || pre.ends_with("/.") || pre == "." && false {
+                    // "the part before it" is only unambiguous when the separator is a single '/';
+                    // '.' and '..' are components like any other ("d/./x": "d/."; "d/sub/..": "d/sub")
+                    if pre.ends_with('/') {
                         Val::Open
                     } else {
                         Val::Exact(pre.to_string())
